@@ -169,7 +169,7 @@ def _construct():
 def _construct_helper():
     def gen(w, rng):
         spec = V.gen_array_spec(rng, w.cfg, dtype="f8")
-        return {"which": rng.choice(["zeros", "ones", "nans", "empty", "zeros_like", "ones_like", "array", "zeros_shape", "ones_shape"]),
+        return {"which": rng.choice(["zeros", "ones", "nans", "empty", "zeros_like", "ones_like", "array", "zeros_shape", "ones_shape", "noval"]),
                 "spec": spec, "out": out(w)}
 
     def run(w, s):
@@ -184,6 +184,8 @@ def _construct_helper():
             a = da.ones(axes=[V.label_array(l) for l in spec["labels"]], dims=list(spec["dims"])); exp = 1.0
         elif which == "nans":
             a = da.nans(axes=pairs); exp = None
+        elif which == "noval":
+            a = da.DimArray(axes=pairs); exp = None     # "empty data": values default to NaN
         elif which == "empty":
             a = da.empty(axes=pairs); exp = "any"
             a.values[...] = 0.0  # uninitialised memory would make the run non-replayable
